@@ -1,11 +1,425 @@
-//! C10 — (not built yet)
-#![allow(unused_imports, unused_variables, dead_code)]
+//! C10 — text and binary renderings of one document deserialize to the same value.
+//!
+//! ops:
+//!   pair <ty> <bdoc> <texthex> <binhex>
+//!       ONE logical document, given as the binary document `<bdoc>` of the shared subset (c04.rs syntax; its text
+//!       view: integers as decimal text, Bool as yes/no, F32 fixed point as "1.500", strings as (un)quoted
+//!       scalars, token ids as the name the resolver gives, rgb as `rgb { r g b }`).  `<texthex>` is that text view
+//!       under a random layout, `<binhex>` the binary rendering.  exec runs text slice + text reader and binary
+//!       tape + on-demand + streaming on the real code with the same `Ty`; result = the six Vals joined by `|`.
+//!       L3: all six equal (floats within 1 f32-ulp, counted separately when not bit-equal).
+//!       Resolver: every pool key known, strategy Error.
+//!   x-c10-real <texthex> <binhex>
+//!       a fixed real struct with `jomini::common::Date`, a `Color` read the documented way and typed scalars,
+//!       deserialized from both formats on all five paths; all must be equal.
+#![allow(dead_code)]
 use crate::common::*;
+use crate::docgen::{self, Doc, Field, Leaf, LayoutCfg, Node, Op};
+use crate::props::c04::{self, BDoc, BField, BLeaf, BNode, Cfg, RootTy};
+use crate::tyseed::{err_class, parse_ty, show_ty, Ty, TySeed};
+use jomini::binary::FailedResolveStrategy;
+use serde::de::DeserializeSeed;
 
-pub fn gen(g: &mut Gen) {}
+pub fn shared_cfg() -> Cfg {
+    Cfg { strat: FailedResolveStrategy::Error, lines: false, entries: docgen::KEY_POOL.iter().map(|k| (docgen::key_id(k.as_bytes()).unwrap(), k.to_string())).collect() }
+}
+
+// ---------------------------------------------------------------------------------------
+// text view of a binary document of the shared subset
+
+fn leaf_view(l: &BLeaf, is_key: bool) -> Option<Leaf> {
+    Some(match l {
+        BLeaf::I32(v) => Leaf::Int(*v as i64),
+        BLeaf::I64(v) => Leaf::Int(*v),
+        BLeaf::U32(v) => Leaf::Uint(*v as u64),
+        BLeaf::U64(v) => Leaf::Uint(*v),
+        BLeaf::Bool(b) => Leaf::Bool(*b),
+        BLeaf::F32(b) => Leaf::Fixed(i32::from_le_bytes(*b)),
+        BLeaf::F64(_) => return None,
+        BLeaf::Quoted(b) => if is_key { Leaf::Unq(b.clone()) } else { Leaf::Quo(b.clone()) },
+        BLeaf::Unquoted(b) => Leaf::Unq(b.clone()),
+        BLeaf::Id(i) => Leaf::Unq(docgen::id_name(*i)?.as_bytes().to_vec()),
+    })
+}
+fn node_view(n: &BNode) -> Option<Node> {
+    Some(match n {
+        BNode::Leaf(l) => Node::Leaf(leaf_view(l, false)?),
+        BNode::Obj(fs) => Node::Obj(fs.iter().map(field_view).collect::<Option<Vec<_>>>()?),
+        BNode::Arr(vs) => Node::Arr(vs.iter().map(node_view).collect::<Option<Vec<_>>>()?),
+        BNode::Rgb(r, g, b, a) => Node::Rgb(*r, *g, *b, *a),
+    })
+}
+fn field_view(f: &BField) -> Option<Field> {
+    if f.ghosts > 0 { return None; }
+    Some(Field { key: leaf_view(&f.key, true)?, op: Op::Eq, val: node_view(&f.val)?, ghosts: 0, implicit_eq: false })
+}
+pub fn text_view(d: &BDoc) -> Option<Doc> { Some(Doc { fields: d.fields.iter().map(field_view).collect::<Option<Vec<_>>>()? }) }
+
+// ---------------------------------------------------------------------------------------
+// shared-subset documents and the types that make sense for both formats
+
+fn text_safe_unquoted(b: &[u8]) -> bool {
+    !b.is_empty() && b.iter().all(|c| c.is_ascii_alphanumeric() || matches!(c, b'_' | b'.' | b'-' | b':' | b'\'') || *c >= 0x80)
+}
+
+fn sanitize(rng: &mut Rng, fs: &mut Vec<BField>, in_array_ok: bool) {
+    let _ = in_array_ok;
+    for f in fs.iter_mut() {
+        f.ghosts = 0;
+        // keys: resolvable ids or strings
+        f.key = match &f.key {
+            BLeaf::I32(v) => BLeaf::Unquoted(v.to_string().into_bytes()),
+            BLeaf::I64(v) => BLeaf::Unquoted(v.to_string().into_bytes()),
+            BLeaf::U32(v) => BLeaf::Unquoted(format!("k{}", v).into_bytes()),
+            BLeaf::U64(v) => BLeaf::Unquoted(format!("k{}", v).into_bytes()),
+            BLeaf::Id(i) if docgen::id_name(*i).is_none() => BLeaf::Id(0x2000),
+            BLeaf::Quoted(b) | BLeaf::Unquoted(b) if !text_safe_unquoted(b) => BLeaf::Unquoted(b"key".to_vec()),
+            k => k.clone(),
+        };
+        sanitize_node(rng, &mut f.val, false);
+    }
+}
+fn sanitize_node(rng: &mut Rng, n: &mut BNode, in_array: bool) {
+    match n {
+        BNode::Leaf(l) => {
+            match l {
+                BLeaf::F64(_) => *l = BLeaf::I32(rng.next() as i32 >> 12),
+                BLeaf::Id(i) if docgen::id_name(*i).is_none() => *l = BLeaf::Id(0x2000 + 7 * rng.below(16) as u16),
+                BLeaf::Unquoted(b) if !text_safe_unquoted(b) => *l = BLeaf::Quoted(b.clone()),
+                _ => {}
+            }
+            if let BLeaf::Quoted(b) = l { if b.contains(&b'"') || b.contains(&b'\\') { *l = BLeaf::Quoted(b"q".to_vec()); } }
+        }
+        BNode::Obj(fs) => sanitize(rng, fs, false),
+        BNode::Arr(vs) => { for v in vs.iter_mut() { sanitize_node(rng, v, true); } }
+        BNode::Rgb(r, ..) => { if in_array { *n = BNode::Leaf(BLeaf::U32(*r)); } }
+    }
+}
+
+pub fn gen_shared_bdoc(g: &mut Gen) -> BDoc {
+    let mut d = c04::gen_bdoc(g);
+    sanitize(&mut g.rng, &mut d.fields, false);
+    d
+}
+
+thread_local! { static PROBES: std::cell::Cell<usize> = std::cell::Cell::new(0); }
+
+fn opt_wrap(rng: &mut Rng, t: Ty) -> Ty { if rng.chance(1, 7) { Ty::Opt(Box::new(t)) } else { t } }
+
+fn leaf_ty(rng: &mut Rng, l: &BLeaf) -> Ty {
+    if rng.chance(1, 20) { return Ty::Ign; }
+    match l {
+        BLeaf::I32(v) => { let mut c = vec![Ty::I64, Ty::I32, Ty::F64]; if *v >= 0 { c.push(Ty::U64); c.push(Ty::U32); } rng.pick(&c).clone() }
+        BLeaf::I64(_) => Ty::I64,
+        BLeaf::U32(_) => rng.pick(&[Ty::U32, Ty::U64, Ty::I64, Ty::F64]).clone(),
+        BLeaf::U64(v) => if *v <= i64::MAX as u64 && rng.chance(1, 3) { Ty::I64 } else { Ty::U64 },
+        BLeaf::Bool(_) => Ty::Bool,
+        BLeaf::F32(_) => if rng.chance(1, 2) { Ty::F32 } else { Ty::F64 },
+        _ => Ty::Str,
+    }
+}
+fn class(l: &BLeaf) -> u8 { match l { BLeaf::I32(_) | BLeaf::I64(_) => 0, BLeaf::U32(_) | BLeaf::U64(_) => 1, BLeaf::Bool(_) => 2, BLeaf::F32(_) | BLeaf::F64(_) => 3, _ => 4 } }
+
+fn fields_ty(rng: &mut Rng, fs: &[BField]) -> Ty {
+    if !fs.is_empty() && rng.chance(5, 6) {
+        let mut out: Vec<(String, Ty)> = vec![];
+        let mut seen: Vec<String> = vec![];
+        for f in fs {
+            let Some(n) = c04::key_field_name(&f.key) else { continue };
+            // a field is typed after the FIRST value carrying its name (a repeated key is a duplicate either way)
+            if seen.contains(&n) { continue; }
+            seen.push(n.clone());
+            if rng.chance(1, 6) { continue; }
+            let t = node_ty(rng, &f.val);
+            out.push((n, opt_wrap(rng, t)));
+        }
+        if rng.chance(1, 4) { out.push(("absent_opt".to_string(), Ty::Opt(Box::new(Ty::I64)))); }
+        if rng.chance(1, 30) { out.push(("absent_req".to_string(), Ty::I64)); }
+        Ty::Struct(out)
+    } else if fs.iter().all(|f| matches!(&f.val, BNode::Leaf(l) if class(l) == 4)) { Ty::Map(Box::new(Ty::Str)) }
+    else { Ty::Map(Box::new(Ty::Ign)) }
+}
+
+fn node_ty(rng: &mut Rng, n: &BNode) -> Ty {
+    if rng.chance(1, 25) { return Ty::Ign; }
+    match n {
+        BNode::Leaf(l) => leaf_ty(rng, l),
+        BNode::Obj(fs) => fields_ty(rng, fs),
+        BNode::Arr(vs) => {
+            let leaves: Vec<&BLeaf> = vs.iter().filter_map(|v| if let BNode::Leaf(l) = v { Some(l) } else { None }).collect();
+            if !vs.is_empty() && leaves.len() == vs.len() && leaves.iter().all(|l| class(l) == class(leaves[0])) {
+                Ty::Seq(Box::new(match class(leaves[0]) { 0 => Ty::I64, 1 => Ty::U64, 2 => Ty::Bool, 3 => if rng.chance(1, 2) { Ty::F32 } else { Ty::F64 }, _ => Ty::Str }))
+            } else if !vs.is_empty() && vs.iter().all(|v| matches!(v, BNode::Obj(_))) {
+                // (elements differ in shape: only a type that fits every element is meaningful)
+                Ty::Seq(Box::new(if let (BNode::Obj(fs), true) = (&vs[0], vs.len() == 1) { fields_ty(rng, fs) } else { Ty::Map(Box::new(Ty::Ign)) }))
+            } else { Ty::Seq(Box::new(Ty::Ign)) }
+        }
+        // looking INTO a colour with a generated type probes the known finding text-reader-header: a few per run
+        // (PROBES counts them); the typed reading of colours is exercised through the real `Color` struct
+        BNode::Rgb(..) => if PROBES.with(|p| { let n = p.get(); if n < 20 { p.set(n + 1); true } else { false } }) {
+            match rng.below(3) { 0 => Ty::Seq(Box::new(Ty::Seq(Box::new(Ty::U32)))), _ => Ty::Seq(Box::new(Ty::Ign)) }
+        } else { Ty::Ign },
+    }
+}
+
+// ---------------------------------------------------------------------------------------
+// running both formats
+
+fn fin<E: std::fmt::Display>(r: Result<String, E>) -> String { match r { Ok(v) => v, Err(e) => err_class(&e.to_string()) } }
+
+pub fn run_text_slice(ty: &Ty, data: &[u8]) -> String {
+    match jomini::TextDeserializer::from_windows1252_slice(data) {
+        Ok(de) => fin(TySeed(ty).deserialize(&de)),
+        Err(_) => "err:parse".to_string(),
+    }
+}
+pub fn run_text_reader(ty: &Ty, data: &[u8]) -> String {
+    let rdr = jomini::text::TokenReader::new(data);
+    let mut de = jomini::TextDeserializer::from_windows1252_reader(rdr);
+    fin(TySeed(ty).deserialize(&mut de))
+}
+
+fn six(ty: &Ty, text: &[u8], bin: &[u8]) -> Vec<String> {
+    let c = shared_cfg();
+    let r = RootTy::Plain(ty.clone());
+    vec![
+        run_text_slice(ty, text), run_text_reader(ty, text),
+        c04::run_tape(&c, &r, bin), c04::run_slice(&c, &r, bin), c04::run_stream(&c, &r, bin, 32 * 1024, vec![]),
+        { let (raw, big) = c04::raw_tokens(bin); c04::run_stream(&c, &r, bin, c04::max_token_len(&raw, big), vec![crate::sched::Step::Repeat(2)]) },
+    ]
+}
+
+/// does the request look INTO an rgb value (anything but skipping it)?  The streaming text deserializer does not
+/// understand header values (`rgb { .. }`) there: recorded finding text-reader-header, its result is then
+/// reported separately instead of being part of the equality.
+fn touches_rgb(t: &Ty, n: &BNode) -> bool {
+    match t {
+        Ty::Ign => false,
+        Ty::Opt(i) => touches_rgb(i, n),
+        _ => match n {
+            BNode::Rgb(..) => true,
+            BNode::Leaf(_) => false,
+            BNode::Arr(vs) => match t { Ty::Seq(e) => vs.iter().any(|v| touches_rgb(e, v)), _ => false },
+            BNode::Obj(fs) => touches_rgb_fields(t, fs),
+        },
+    }
+}
+fn touches_rgb_fields(t: &Ty, fs: &[BField]) -> bool {
+    match t {
+        Ty::Map(vt) => fs.iter().any(|f| touches_rgb(vt, &f.val)),
+        Ty::Struct(decl) => fs.iter().any(|f| c04::key_field_name(&f.key).and_then(|n| decl.iter().find(|(m, _)| *m == n)).map(|(_, ft)| touches_rgb(ft, &f.val)).unwrap_or(false)),
+        _ => false,
+    }
+}
+
+#[derive(PartialEq, Debug)]
+enum Cmp { Equal, FloatNear, Different }
+
+/// compare two Vals; float literals (`f<bits64>` / `g<bits32>` right after a delimiter) are compared as numbers:
+/// bit-equal, or within one f32 ulp after narrowing (text goes through f64, the binary fixed point through f32)
+fn cmp_vals(a: &str, b: &str) -> Cmp {
+    let (x, y) = (a.as_bytes(), b.as_bytes());
+    let (mut i, mut j) = (0usize, 0usize);
+    let mut near = false;
+    let at_value = |s: &[u8], k: usize| k == 0 || matches!(s[k - 1], b'=' | b',' | b'[' | b'(');
+    let num_end = |s: &[u8], k: usize| { let mut e = k + 1; while e < s.len() && s[e].is_ascii_digit() { e += 1; } e };
+    while i < x.len() && j < y.len() {
+        if (x[i] == b'f' || x[i] == b'g') && x[i] == y[j] && at_value(x, i) && at_value(y, j) {
+            let (ei, ej) = (num_end(x, i), num_end(y, j));
+            let term = |s: &[u8], e: usize| e > 0 && (e == s.len() || matches!(s[e], b',' | b']' | b')' | b'}'));
+            if ei > i + 1 && ej > j + 1 && term(x, ei) && term(y, ej) {
+                let (va, vb): (u64, u64) = (a[i + 1..ei].parse().unwrap_or(0), b[j + 1..ej].parse().unwrap_or(1));
+                if va != vb {
+                    let (fa, fb) = if x[i] == b'f' { (f64::from_bits(va) as f32, f64::from_bits(vb) as f32) } else { (f32::from_bits(va as u32), f32::from_bits(vb as u32)) };
+                    let key = |v: f32| { let t = v.to_bits() as i32; if t < 0 { i32::MIN.wrapping_sub(t) } else { t } };
+                    if (key(fa) as i64 - key(fb) as i64).abs() > 1 { return Cmp::Different; }
+                    near = true;
+                }
+                i = ei; j = ej;
+                continue;
+            }
+        }
+        if x[i] != y[j] { return Cmp::Different; }
+        i += 1; j += 1;
+    }
+    if i != x.len() || j != y.len() { return Cmp::Different; }
+    if near { Cmp::FloatNear } else { Cmp::Equal }
+}
+
+// ---------------------------------------------------------------------------------------
+// the fixed real struct (documented shared usage, /repo/tests/de.rs)
+
+mod real {
+    use serde::{de, Deserialize, Deserializer};
+    use std::fmt;
+    #[derive(Debug, PartialEq)]
+    pub struct Color { pub red: u8, pub green: u8, pub blue: u8 }
+    impl<'de> Deserialize<'de> for Color {
+        fn deserialize<D: Deserializer<'de>>(d: D) -> Result<Self, D::Error> {
+            struct V;
+            impl<'de> de::Visitor<'de> for V {
+                type Value = Color;
+                fn expecting(&self, f: &mut fmt::Formatter) -> fmt::Result { f.write_str("a color") }
+                fn visit_seq<A: de::SeqAccess<'de>>(self, mut seq: A) -> Result<Color, A::Error> {
+                    let ty: String = seq.next_element()?.ok_or_else(|| de::Error::custom("value type"))?;
+                    if ty != "rgb" { return Err(de::Error::custom("unexpected color type")); }
+                    let (red, green, blue) = seq.next_element::<(u8, u8, u8)>()?.ok_or_else(|| de::Error::custom("rgb channels"))?;
+                    Ok(Color { red, green, blue })
+                }
+            }
+            d.deserialize_seq(V)
+        }
+    }
+    #[derive(Deserialize, Debug, PartialEq)]
+    pub struct SharedNoColor {
+        pub date: jomini::common::Date,
+        pub core: Option<jomini::common::Date>,
+        pub name: String,
+        pub id: i32,
+        pub flags: Vec<String>,
+        pub x: u64,
+        pub army: bool,
+        pub list: Vec<jomini::common::Date>,
+    }
+    #[derive(Deserialize, Debug, PartialEq)]
+    pub struct Shared {
+        pub date: jomini::common::Date,
+        pub core: Option<jomini::common::Date>,
+        pub color: Color,
+        pub name: String,
+        pub id: i32,
+        pub flags: Vec<String>,
+        pub x: u64,
+        pub army: bool,
+        pub list: Vec<jomini::common::Date>,
+    }
+}
+
+fn real_five<T: for<'de> serde::Deserialize<'de> + std::fmt::Debug>(text: &[u8], bin: &[u8]) -> Vec<String> {
+    let c = shared_cfg();
+    let res = c04::make_resolver(&c);
+    let show = |r: Result<T, jomini::Error>| match r { Ok(v) => format!("{:?}", v).replace(' ', ""), Err(e) => err_class(&e.to_string()) };
+    let b = || { let mut b = jomini::BinaryDeserializer::builder_flavor(c04::VFlavor); b.on_failed_resolve(c.strat); b };
+    vec![
+        show(jomini::text::de::from_windows1252_slice(text)),
+        show(jomini::TextDeserializer::from_windows1252_reader(jomini::text::TokenReader::new(text)).deserialize()),
+        match jomini::BinaryTape::from_slice(bin) { Ok(t) => show(b().deserialize_tape(&t, &res)), Err(_) => "err:parse".to_string() },
+        show(b().deserialize_slice(bin, &res)),
+        show(b().deserialize_reader(bin, &res)),
+    ]
+}
+
+fn gen_real_pair(rng: &mut Rng) -> (Vec<u8>, Vec<u8>) {
+    // logical content
+    let date = |rng: &mut Rng| (rng.range(1, 9999) as i16, rng.range(1, 12) as u8, rng.range(1, 28) as u8);
+    let mut fields: Vec<(&str, Node, BNode)> = vec![];
+    let dnode = |(y, m, d): (i16, u8, u8)| (Node::Leaf(Leaf::Date(y, m, d, None)), BNode::Leaf(BLeaf::I32(docgen::date_to_binary(y, m, d, None))));
+    let d0 = dnode(date(rng)); fields.push(("date", d0.0, d0.1));
+    if rng.chance(1, 2) { let d1 = dnode(date(rng)); fields.push(("core", d1.0, d1.1)); }
+    let (r, g, b) = (rng.below(256) as u32, rng.below(256) as u32, rng.below(256) as u32);
+    fields.push(("color", Node::Rgb(r, g, b, None), BNode::Rgb(r, g, b, None)));
+    let nm: Vec<u8> = (0..rng.below(8)).map(|_| *rng.pick(b"abcxyz \xe9")).collect();
+    fields.push(("name", Node::Leaf(Leaf::Quo(nm.clone())), BNode::Leaf(BLeaf::Quoted(nm))));
+    let id = rng.next() as i32 >> rng.below(31);
+    fields.push(("id", Node::Leaf(Leaf::Int(id as i64)), BNode::Leaf(BLeaf::I32(id))));
+    let nf = rng.below(4);
+    let fl: Vec<Vec<u8>> = (0..nf).map(|_| (0..1 + rng.below(5)).map(|_| b'a' + rng.below(26) as u8).collect()).collect();
+    fields.push(("flags", Node::Arr(fl.iter().map(|s| Node::Leaf(Leaf::Unq(s.clone()))).collect()), BNode::Arr(fl.iter().map(|s| BNode::Leaf(if s.len() % 2 == 0 { BLeaf::Unquoted(s.clone()) } else { BLeaf::Quoted(s.clone()) })).collect())));
+    let x = rng.next() >> rng.below(64);
+    fields.push(("x", Node::Leaf(Leaf::Uint(x)), BNode::Leaf(if x <= u32::MAX as u64 { BLeaf::U32(x as u32) } else { BLeaf::U64(x) })));
+    let army = rng.chance(1, 2);
+    fields.push(("army", Node::Leaf(Leaf::Bool(army)), BNode::Leaf(BLeaf::Bool(army))));
+    let nl = rng.below(3);
+    let ds: Vec<(i16, u8, u8)> = (0..nl).map(|_| date(rng)).collect();
+    fields.push(("list", Node::Arr(ds.iter().map(|d| dnode(*d).0).collect()), BNode::Arr(ds.iter().map(|d| dnode(*d).1).collect())));
+    if rng.chance(1, 3) { fields.push(("zz_long_key_name", Node::Arr(vec![Node::Leaf(Leaf::Int(1))]), BNode::Arr(vec![BNode::Leaf(BLeaf::I32(1))]))); }
+    for i in (1..fields.len()).rev() { let j = rng.below(i + 1); fields.swap(i, j); }
+    let doc = Doc { fields: fields.iter().map(|(k, n, _)| Field { key: Leaf::Unq(k.as_bytes().to_vec()), op: Op::Eq, val: n.clone(), ghosts: 0, implicit_eq: false }).collect() };
+    let bd = BDoc { fields: fields.iter().map(|(k, _, b)| BField { ghosts: 0, key: if rng.chance(2, 3) { BLeaf::Id(docgen::key_id(k.as_bytes()).unwrap()) } else { BLeaf::Unquoted(k.as_bytes().to_vec()) }, val: b.clone() }).collect() };
+    let text = docgen::render_layout(rng, &LayoutCfg::reader_safe(), &docgen::lexemes(&doc));
+    (text, c04::render_bdoc(&bd))
+}
+
+// ---------------------------------------------------------------------------------------
 
 pub fn exec(w: &[&str], obs: &mut Obs) -> Option<String> {
-    None
+    let case = || w.join(" ");
+    match w {
+        ["pair", ty, bd, th, bh] => {
+            let (ty, d, text, bin) = (parse_ty(ty)?, c04::parse_bdoc(bd)?, unhex(th)?, unhex(bh)?);
+            if c04::render_bdoc(&d) != bin { return Some("stale-case".to_string()); }
+            // the text rendering must be a layout of the document's text view
+            let view = text_view(&d)?;
+            let canon = docgen::render_canonical(&docgen::lexemes(&view));
+            let tok = |data: &[u8]| jomini::TextTape::from_slice(data).map(|t| crate::show::text_tape(t.tokens())).unwrap_or_else(|_| "err".into());
+            if tok(&canon) != tok(&text) { return Some("stale-case".to_string()); }
+            let vals = six(&ty, &text, &bin);
+            let mut worst = Cmp::Equal;
+            let header = touches_rgb_fields(&ty, &d.fields);
+            // known finding text-reader-header: the streaming text deserializer's disagreement on a header value is
+            // reported under exactly that kind (and nothing else is)
+            if header {
+                if cmp_vals(&vals[0], &vals[1]) == Cmp::Different {
+                    obs.violation("text-reader-header", &case(), &format!("text slice {} vs text reader {}", vals[0], vals[1]));
+                } else { obs.count("text-reader-header:same"); }
+            }
+            for (i, v) in vals.iter().enumerate().skip(1) {
+                if header && i == 1 { continue; }
+                match cmp_vals(&vals[0], v) {
+                    Cmp::Equal => {}
+                    Cmp::FloatNear => worst = Cmp::FloatNear,
+                    Cmp::Different => { obs.violation("c10-renderings-disagree", &case(), &format!("path0 (text slice) {} vs path{} {}", vals[0], i, v)); worst = Cmp::Different; break; }
+                }
+            }
+            obs.count(match worst { Cmp::Equal => "pair:equal", Cmp::FloatNear => "pair:float-within-1ulp-f32", Cmp::Different => "pair:different" });
+            let k = if vals[0].starts_with("err:missing") { "err:missing" } else if vals[0].starts_with("err:duplicate") { "err:duplicate" } else if vals[0].starts_with("err") { vals[0].as_str() } else { "ok" };
+            obs.count(&format!("pair-result:{}", k));
+            for (p, n) in [("i", "int"), ("u", "uint"), ("b", "bool"), ("f", "f64"), ("g", "f32"), ("s", "string"), ("[ign,ign]", "rgb")] {
+                if vals[0].contains(&format!("={}", p)) || vals[0].contains(&format!("[{}", p)) || vals[0].contains(&format!("({}", p)) { obs.count(&format!("pair-leaf:{}", n)); }
+            }
+            // the streaming text deserializer's answer on header values is outside the claim (and outside the model)
+            let mut shown = vals.clone();
+            if header { shown[1] = "text-reader-header".to_string(); }
+            Some(shown.join("|"))
+        }
+        ["x-c10-real", th, bh] => {
+            let (text, bin) = (unhex(th)?, unhex(bh)?);
+            // with the colour: the streaming text deserializer is reported separately (finding text-reader-header)
+            let v = real_five::<real::Shared>(&text, &bin);
+            for (i, x) in v.iter().enumerate().skip(1) {
+                if i == 1 { obs.count(if *x != v[0] { "real-color:text-reader-differs(known finding text-reader-header)" } else { "real-color:text-reader-same" }); continue; }
+                if *x != v[0] { obs.violation("c10-real-struct-disagrees", &case(), &format!("text slice {} vs path{} {}", v[0], i, x)); break; }
+            }
+            // without it: all five paths
+            let n = real_five::<real::SharedNoColor>(&text, &bin);
+            for (i, x) in n.iter().enumerate().skip(1) {
+                if *x != n[0] { obs.violation("c10-real-struct-disagrees", &case(), &format!("(no colour) text slice {} vs path{} {}", n[0], i, x)); break; }
+            }
+            obs.count(if v[0].starts_with("err") { "real:err" } else { "real:ok" });
+            Some(format!("{}|{}", v[0], n[0]))
+        }
+        _ => None,
+    }
+}
+
+pub fn gen(g: &mut Gen) {
+    PROBES.with(|p| p.set(0));
+    let n = g.budget(6000, 150_000);
+    for _ in 0..n {
+        let d = gen_shared_bdoc(g);
+        let Some(view) = text_view(&d) else { g.count("skipped:no-text-view"); continue };
+        let ty = fields_ty(&mut g.rng, &d.fields);
+        let text = docgen::render_layout(&mut g.rng, &LayoutCfg::reader_safe(), &docgen::lexemes(&view));
+        let bin = c04::render_bdoc(&d);
+        g.emit(format!("pair {} {} {} {}", show_ty(&ty), c04::show_bdoc(&d), hex(&text), hex(&bin)));
+        g.count("pair");
+    }
+    let m = g.budget(1500, 30_000);
+    for _ in 0..m {
+        let (t, b) = gen_real_pair(&mut g.rng);
+        g.emit(format!("x-c10-real {} {}", hex(&t), hex(&b)));
+        g.count("real-pair");
+    }
 }
 
 pub fn tables() -> String {
